@@ -218,7 +218,14 @@ class Runner:
         chk, prop = self.chk, self.chk.prop
         gen_changed = []
         self._gen_backup = {}
-        for rel, content in (chk.translate() or {}).items():
+        try:
+            tables = chk.translate() or {}
+        except Exception as e:
+            # the translator no longer understands the source: a broken tie (T), decided by the failing-input search
+            tables = {}
+            self.lean_problems.append({"kind": "translator", "what": f"Check.translate() failed: {type(e).__name__}: {e}",
+                                       "tb": traceback.format_exc()[-1500:]})
+        for rel, content in tables.items():
             path = os.path.join(LEAN, rel)
             old = open(path).read() if os.path.exists(path) else None
             if L.write_if_changed(path, content):
